@@ -86,23 +86,23 @@ Lemma vfold_core n (d : bool) (sel sel' : N -> bool) :
 Proof.
   intros Hsel. induction js as [|j js IH]; intros rs av au aw L Hn Lv Lu Hw.
   - destruct rs; [|discriminate]. exact Hw.
-  - destruct rs as [|r rs]; [discriminate|]. inversion Hn as [|? ? Lr Hrs]; subst.
+  - destruct rs as [|r rs]; [discriminate|]. pose proof (Forall_inv Hn) as Lr; pose proof (Forall_inv_tail Hn) as Hrs; cbn beta in Lr.
     unfold vfold, xsum. cbn [combine fold_left fst snd].
     apply IH; try assumption.
     + cbn in L. lia.
-    + apply xor_bytes_len; [exact Lv|rewrite maskb_length; reflexivity].
-    + apply xor_bytes_len; [exact Lu|reflexivity].
-    + rewrite Hsel. destruct d; cbn [xorb maskb].
+    + apply xor_bytes_len; [exact Lv|rewrite maskb_length; exact Lr].
+    + apply xor_bytes_len; [exact Lu|exact Lr].
+    + rewrite Hw, Hsel. destruct d.
       * (* d = true *)
-        destruct (sel j); cbn [negb maskb].
-        -- rewrite xor_bytes_swap4, xor_bytes_self. rewrite xor_bytes_zeros_r; [|apply xor_bytes_len; assumption].
-           rewrite xor_bytes_zeros_r; [reflexivity|apply xor_bytes_len; assumption].
-        -- rewrite (xor_bytes_zeros_r av) by exact Lv. apply xor_bytes_assoc.
+        rewrite xorb_true_l. cbn [maskb]. destruct (sel j); cbn [negb maskb].
+        -- rewrite xor_bytes_swap4, xor_bytes_self. reflexivity.
+        -- rewrite (xor_bytes_zeros_r av (length r)) by (rewrite Lr; exact Lv). apply xor_bytes_assoc.
       * (* d = false *)
-        rewrite !xor_bytes_length, Lu, !Nat.min_id.
-        rewrite (xor_bytes_zeros_r av) by (rewrite Lu; exact Lv).
+        rewrite xorb_false_l. cbn [maskb].
+        rewrite (xor_bytes_zeros_r av (length au)) by (rewrite Lu; exact Lv).
         rewrite xor_bytes_zeros_r; [reflexivity|].
-        apply xor_bytes_len; [exact Lv|rewrite maskb_length; reflexivity].
+        rewrite (xor_bytes_len n au r Lu Lr).
+        apply xor_bytes_len; [exact Lv|rewrite maskb_length; exact Lr].
 Qed.
 
 (* ------------------------------------------------------------------ the model's row functions *)
